@@ -39,7 +39,7 @@ func Lstat(name string) (fs.FileInfo, error) {
 	if n, e := W.lookup(p); e == 0 && n.link != "" {
 		seq, _ := W.begin(OpStat, p)
 		W.log(&TraceEv{Seq: seq, Op: OpStat, Path: p, Res: "ok", Digest: "link"})
-		return fileInfo{name: filepath.Base(p), size: int64(len(n.link)), mode: fs.ModeSymlink | 0o777, mt: W.now(), id: n}, nil
+		return fileInfo{name: filepath.Base(p), size: int64(len(n.link)), mode: fs.ModeSymlink | 0o777, mt: time.Unix(n.mt, 0).UTC(), id: n}, nil
 	}
 	return W.stat(name)
 }
@@ -860,7 +860,7 @@ func (f *File) Stat() (fs.FileInfo, error) {
 	if f.real != nil {
 		return f.real.Stat()
 	}
-	return fileInfo{name: filepath.Base(f.path), size: int64(len(f.n.data)), mode: f.n.mode, mt: f.w.now(), id: f.n}, nil
+	return fileInfo{name: filepath.Base(f.path), size: int64(len(f.n.data)), mode: f.n.mode, mt: time.Unix(f.n.mt, 0).UTC(), id: f.n}, nil
 }
 
 func (f *File) Seek(offset int64, whence int) (int64, error) {
